@@ -60,6 +60,15 @@ func applySpelling(t *table, col string, spelling int, def string) {
 
 func c10Defaults(c *Ctx) {
 	m := genStaticFeed(c, false)
+	// all trips run in one block on one service (one vehicle, as far as the feed says): a trip's blank
+	// cell is still the default, whatever its neighbours in the block say
+	if tr := m.t("trips.txt"); len(tr.Rows) > 0 {
+		svc, _ := tr.get(0, "service_id")
+		for r := range tr.Rows {
+			tr.set(r, "block_id", "BLK")
+			tr.set(r, "service_id", svc)
+		}
+	}
 	var applied []string
 	var valued []string
 	for _, dc := range defaultCols {
@@ -238,7 +247,7 @@ func init() {
 	register(&Check{
 		ID:    "C10",
 		Level: "model_checking",
-		Rule: "base feed x 16 default-bearing optional columns x 6 spellings (as written / column omitted / blank everywhere / blank first row / blank last row / explicit default), each default-bearing column given each of its legal values in every row (000000 / FFFFFF colours, every enum digit), one-sided arrival or departure per stop_times row (also exactly at 00:00:00), either time column omitted, inheritance option; k deviations at a time (quick 2, thorough 4); plus the full inheritance product (option x parent type x parent value x two children's values x first child's location type {0, 2, 3, blank} x second child's parent {station, none, the first child (three levels)} x column absent x row order x children with every optional cell blank = 49 152); " +
+		Rule: "base feed (all trips in one block on one service) x 16 default-bearing optional columns x 6 spellings (as written / column omitted / blank everywhere / blank first row / blank last row / explicit default), each default-bearing column given each of its legal values in every row (000000 / FFFFFF colours, every enum digit), one-sided arrival or departure per stop_times row (also exactly at 00:00:00), either time column omitted, inheritance option; k deviations at a time (quick 2, thorough 4); plus the full inheritance product (option x parent type x parent value x two children's values x first child's location type {0, 2, 3, blank} x second child's parent {station, none, the first child (three levels)} x column absent x row order x children with every optional cell blank = 49 152); " +
 			"non-trivial = distinct feeds with at least one non-explicit spelling; oracle = reference interpretation with the GTFS reference defaults",
 		Assumptions: []string{"defaults are those of the GTFS schedule reference: route_color FFFFFF, route_text_color 000000, pickup/drop_off 0, continuous_* 1, timepoint 1, transfer_type 0, exact_times 0, wheelchair/bikes 0, location_type 0"},
 		Scenarios: func(tier string) []*Scenario {
